@@ -239,6 +239,8 @@ func (c *Cholesky) SolveTo(dst *Dense, b Matrix) error {
 
 	dst.reuseAsNonZeroed(bm, bn)
 	if b != dst {
+		bU, _ := untranspose(b)
+		dst.checkOverlapMatrix(bU)
 		dst.copyAllowSelfT(b)
 	}
 	lapack64.Potrs(c.chol.mat, dst.mat)
@@ -793,6 +795,8 @@ func (ch *BandCholesky) SolveTo(dst *Dense, b Matrix) error {
 	}
 	dst.reuseAsNonZeroed(br, bc)
 	if b != dst {
+		bU, _ := untranspose(b)
+		dst.checkOverlapMatrix(bU)
 		dst.copyAllowSelfT(b)
 	}
 	lapack64.Pbtrs(ch.chol.mat, dst.mat)
@@ -1150,6 +1154,8 @@ func (c *PivotedCholesky) SolveTo(dst *Dense, b Matrix) error {
 
 	dst.reuseAsNonZeroed(bm, bn)
 	if dst != b {
+		bU, _ := untranspose(b)
+		dst.checkOverlapMatrix(bU)
 		dst.copyAllowSelfT(b)
 	}
 
